@@ -277,6 +277,76 @@ func (a *arch) readDisk(dir string) map[string][]byte {
 // running the real operations and observing them
 // ---------------------------------------------------------------------------------------
 
+// recDelegate records the decoder's callbacks (the CLI's user-visible log): the order, the counters
+// and the scan statistics are validated against the specification (conformance only: drift).
+type recDelegate struct {
+	par2.DoNothingDecoderDelegate
+	mu     sync.Mutex
+	Files  [][]int  // i, n, byteCount, hits, misses, err(0/1)
+	Writes [][]int  // i, n, byteCount, err(0/1)
+	WPaths []string // path of each write
+	Parity []int    // i of each OnParityFileLoad
+	Recv   []int    // exponents announced
+}
+
+func (r *recDelegate) OnDataFileLoad(i, n int, path string, byteCount, hits, misses int, err error) {
+	r.mu.Lock()
+	e := 0
+	if err != nil {
+		e = 1
+	}
+	r.Files = append(r.Files, []int{i, n, byteCount, hits, misses, e})
+	r.mu.Unlock()
+}
+
+func (r *recDelegate) OnDataFileWrite(i, n int, path string, byteCount int, err error) {
+	r.mu.Lock()
+	e := 0
+	if err != nil {
+		e = 1
+	}
+	r.Writes = append(r.Writes, []int{i, n, byteCount, e})
+	r.WPaths = append(r.WPaths, path)
+	r.mu.Unlock()
+}
+
+func (r *recDelegate) OnParityFileLoad(i int, path string, err error) {
+	r.mu.Lock()
+	r.Parity = append(r.Parity, i)
+	r.mu.Unlock()
+}
+
+func (r *recDelegate) OnRecoveryPacketLoad(exponent uint16, byteCount int) {
+	r.mu.Lock()
+	r.Recv = append(r.Recv, int(exponent))
+	r.mu.Unlock()
+}
+
+func (r *recDelegate) json(dir string) map[string]interface{} {
+	files, writes := r.Files, r.Writes
+	if files == nil {
+		files = [][]int{}
+	}
+	if writes == nil {
+		writes = [][]int{}
+	}
+	wp := []string{}
+	for _, p := range r.WPaths {
+		wp = append(wp, filepath.ToSlash(relTo(dir, p)))
+	}
+	par, rec := r.Parity, r.Recv
+	if par == nil {
+		par = []int{}
+	}
+	if rec == nil {
+		rec = []int{}
+	}
+	return map[string]interface{}{"files": files, "writes": writes, "wpaths": wp, "parity": par, "recv": rec}
+}
+
+// current delegate used by runVerify / runRepair (nil = none); set by drivers that want the log
+var curDelegate *recDelegate
+
 type verifyObs struct {
 	Err       string `json:"err"`
 	ErrText   string `json:"errtext"`
@@ -310,10 +380,14 @@ func runVerify(index string, g int, viaHook bool, lio *logIO) (o verifyObs) {
 	}()
 	var res par2.VerifyResult
 	var err error
+	vopts := par2.VerifyOptions{NumGoroutines: g}
+	if curDelegate != nil {
+		vopts.VerifyDelegate = curDelegate
+	}
 	if viaHook {
-		res, err = par2.VerifVerify(lio, index, par2.VerifyOptions{NumGoroutines: g})
+		res, err = par2.VerifVerify(lio, index, vopts)
 	} else {
-		res, err = par2.Verify(index, par2.VerifyOptions{NumGoroutines: g})
+		res, err = par2.Verify(index, vopts)
 	}
 	o.Err = classifyPar2Err(err)
 	o.ErrText = errStr(err)
@@ -334,6 +408,9 @@ func runRepair(index string, g int, dc bool, viaHook bool, lio *logIO) (o repair
 	var res par2.RepairResult
 	var err error
 	opts := par2.RepairOptions{DoubleCheck: dc, NumGoroutines: g}
+	if curDelegate != nil {
+		opts.RepairDelegate = curDelegate
+	}
 	if viaHook {
 		res, err = par2.VerifRepair(lio, index, opts)
 	} else {
